@@ -113,3 +113,50 @@ func checkCommentsRaw(c *Ctx, rule string, pk *packages.Package) {
 		c.Anchor(rule, "codescan › range over CommentGroup.List", "no function reads raw comments")
 	}
 }
+
+// checkSpecDocFirst: the comment of a type declared inside a group — `type ( // doc \n Foo … )` —
+// hangs on the TypeSpec, the comment of a lone declaration on the GenDecl. Every function that
+// takes the GenDecl's comment for a type it found among the specs reads the TypeSpec's comment
+// too (the functions that collect models and parameters do; one that does not loses every
+// annotation written inside a group).
+func checkSpecDocFirst(c *Ctx, rule string, pk *packages.Package) {
+	c.Rule(rule, "every function that reads the doc comment of a GenDecl for one of its type specs also reads that TypeSpec's own doc (grouped declarations)", 2)
+	info := pk.TypesInfo
+	n := 0
+	for _, fd := range load.AllFuncs(pk) {
+		if fd.Body == nil {
+			continue
+		}
+		var genDoc ast.Node
+		specDoc, typeSpecs := false, false
+		ast.Inspect(fd.Body, func(m ast.Node) bool {
+			switch x := m.(type) {
+			case *ast.SelectorExpr:
+				if x.Sel.Name == "Doc" {
+					switch goan.NamedPath(info.TypeOf(x.X)) {
+					case "go/ast.GenDecl":
+						if genDoc == nil {
+							genDoc = x
+						}
+					case "go/ast.TypeSpec":
+						specDoc = true
+					}
+				}
+			case *ast.TypeAssertExpr:
+				if x.Type != nil && goan.NamedPath(info.TypeOf(x.Type)) == "go/ast.TypeSpec" {
+					typeSpecs = true
+				}
+			}
+			return true
+		})
+		if genDoc == nil || !typeSpecs {
+			continue
+		}
+		n++
+		c.Check(specDoc, rule, "codescan."+load.FuncName(fd)+" › comment of a type spec", c.posOf(pk, genDoc.Pos()), "TypeSpec.Doc, then GenDecl.Doc",
+			"the function takes the comment of the declaration group (GenDecl.Doc) for a type found among its specs and never reads the TypeSpec's own comment: an annotation written inside `type ( … )` (swagger:strfmt, swagger:model, swagger:enum …) is not seen — a field of such a type is published as a $ref to a plain definition instead of its string format")
+	}
+	if n == 0 {
+		c.Anchor(rule, "codescan › readers of GenDecl.Doc for type specs", "not found")
+	}
+}
